@@ -20,48 +20,71 @@ Fixpoint add_plain_all (l : list ins) (s : st) : option st :=
 Inductive seg := SCtx (l : list ins) | SPlain (l : list ins).
 
 (** a region is used by one context only: whenever a context adds an event to region [p], no
-    earlier order edge points into [p] *)
+    earlier order edge points into [p]; and all earlier edges point to existing nodes *)
 Definition local_ok (before after : st) : bool :=
   let start := length (nodes before) in
-  let len := length (nodes after) - start in
-  forallb (fun p => match events_range (nodes after) p start len with
+  forallb (fun p => match ctx_events (nodes after) start p with
                     | [] => true
                     | _ => match region_edges before p with [] => true | _ => false end
-                    end) (regions (nodes after)).
+                    end) (seq 0 (length (nodes after)))
+  && forallb (fun e => Nat.ltb (snd e) start) (edges before).
+
+(** the hypotheses of [order_edges_total] for one context *)
+Definition ctx_ok (before after : st) : bool * bool * bool :=
+  (wf (nodes after), disciplined (nodes after) (length (nodes before)), local_ok before after).
 
 (** classified nodes added outside every context are never ordered *)
 Definition plain_ok (l : list ins) : bool := forallb (fun i => negb (i_eff i)) l.
 
-Fixpoint run_segs (l : list seg) (s : st) (ok : bool) : option (st * bool) :=
+Fixpoint edges_eqb (a b : list (nat * nat)) : bool :=
+  match a, b with
+  | [], [] => true
+  | (x, y) :: a', (u, v) :: b' => Nat.eqb x u && Nat.eqb y v && edges_eqb a' b'
+  | _, _ => false
+  end.
+
+Definition and3 (a b : bool * bool * bool) : bool * bool * bool :=
+  let '(a1, a2, a3) := a in let '(b1, b2, b3) := b in (a1 && b1, a2 && b2, a3 && b3).
+
+(** state, flags (wf, disciplined, local) accumulated over the contexts, no classified node
+    outside a context, and per context the theorem's conclusion evaluated on the model *)
+Fixpoint run_segs (l : list seg) (s : st) (ok : bool * bool * bool) (plain concl : bool)
+  : option (st * (bool * bool * bool) * bool * bool) :=
   match l with
-  | [] => Some (s, ok)
+  | [] => Some (s, ok, plain, concl)
   | SCtx c :: r =>
       match track s c with
-      | Some s1 => run_segs r s1 (ok && local_ok s s1)
+      | Some s1 =>
+          let start := length (nodes s) in
+          let c1 := forallb (fun p => match region_edges s p with
+                                      | [] => edges_eqb (region_edges s1 p) (expected_edges (nodes s1) start p)
+                                      | _ => true end) (regions (nodes s1)) in
+          run_segs r s1 (and3 ok (ctx_ok s s1)) plain (concl && c1)
       | None => None
       end
   | SPlain c :: r =>
       match add_plain_all c s with
-      | Some s1 => run_segs r s1 (ok && plain_ok c)
+      | Some s1 => run_segs r s1 ok (plain && plain_ok c) concl
       | None => None
       end
   end.
 
 (** everything the harness compares, for one compilation:
       model edges (oldest first), per region the edges found by the model and the edges the
-      specification asks for, and the flags wf / disciplined / context-local *)
+      specification asks for (all contexts together: start = 0), the flags wf / disciplined /
+      context-local, "no classified node outside a context", and the conclusion of
+      [order_edges_total] evaluated context by context on the model *)
 Record report := mkReport {
   rp_edges : list (nat * nat);
   rp_regions : list (nat * (list (nat * nat) * list (nat * nat)));
-  rp_wf : bool; rp_disc : bool; rp_local : bool }.
+  rp_wf : bool; rp_disc : bool; rp_local : bool; rp_plain : bool; rp_concl : bool }.
 
 Definition run_report (l : list seg) : option report :=
-  match run_segs l init true with
+  match run_segs l init (true, true, true) true true with
   | None => None
-  | Some (s, ok) =>
+  | Some (s, (w, d, lo), pl, co) =>
       let ns := nodes s in
       Some (mkReport (rev (edges s))
-                     (map (fun p => (p, (region_edges s p, expected_edges ns p))) (regions ns))
-                     (wf ns) (disciplined ns) ok)
+                     (map (fun p => (p, (region_edges s p, expected_edges ns 0 p))) (regions ns))
+                     w d lo pl co)
   end.
-
